@@ -233,6 +233,14 @@ Lemma def_name_span_alias_refuted :
   /\ marks_on_line content 9 11 [100; 98] = false.
 Proof. repeat split; vm_compute; reflexivity. Qed.
 
+(** what seeded change S53 does (search for the name from the start of the def statement
+    instead of behind the keyword): for a fixture named e the search stops inside "def" *)
+Lemma def_name_search_from_keyword_refuted :
+  let content := [100; 101; 102; 32; 101; 40; 102; 41; 58] in                         (* def e(f): *)
+  find_function_name_position content 1 [101] = Ok (4, 5)
+  /\ find [101] content = Some 1.
+Proof. split; vm_compute; reflexivity. Qed.
+
 (** ** provider ranges: well formed, selection inside the full range *)
 Theorem symbol_ranges_nested line eline s e last_len :
   s <= e ->
